@@ -10,6 +10,7 @@ class RegionDecider:
     def __init__(self, assignment):
         self.assignment = dict(assignment)
         self.asked = []
+        self.asked_raw = []     # (condition, answer) pairs, for rules that require a particular guard on the path taken
 
     def __call__(self, cond):
         try:
@@ -18,11 +19,9 @@ class RegionDecider:
         except Exception:  # noqa: BLE001
             return None
         self.asked.append(sp.sstr(cond))
-        if v is sp.true or v == True:  # noqa: E712
-            return True
-        if v is sp.false or v == False:  # noqa: E712
-            return False
-        return None
+        ans = True if (v is sp.true or v == True) else (False if (v is sp.false or v == False) else None)  # noqa: E712
+        self.asked_raw.append((cond, ans))
+        return ans
 
 
 def sign_regions():
